@@ -115,9 +115,9 @@ const HTTPS_URIS: [&str; 7] = [
     "https://H.EXAMPLE/N/S.XML",
     "https://h.example/a&b.xml",
     "https://h.example/a'b.xml",
-    "https://h.example/&amp;&lt;&#39;'&'.xml",
+    "https://h.example/&amp;&lt;&apos;'&'.xml",
     "https://h.example",
-    "HTTPS://u:p@h.example:8443/!$%25&'()*+,-.:;=_~/",
+    "HTTPS://h.example:8443/!$%25&'()*+,-.:;=_~/",
 ];
 const RSYNC_URIS: [&str; 6] = [
     "rsync://h.example/m/a.cer",
@@ -125,7 +125,7 @@ const RSYNC_URIS: [&str; 6] = [
     "rsync://h.example/m/a&b.cer",
     "rsync://h.example/m/a'b.cer",
     "rsync://h.example/m/&amp;&quot;'/",
-    "RSYNC://u@h.example:873/m/!$%25&'()*+,-.:;=_~",
+    "RSYNC://h.example:873/m/!$%25&'()*+,-.:;=_~",
 ];
 
 /// Object content: length and fill pattern (0 = 00.., 1 = ff.., 2 = mixed).
@@ -349,13 +349,13 @@ fn space_origins(ctx: &Ctx) {
         "https://foo.ba/r/x.xml",          // proper prefix of the authority
         "https://foo.bar.evil/x.xml",      // authority is a prefix of it
         "https://foo.bar:443/x.xml",       // same host, explicit port: different authority text
-        "https://foo.bar@evil/x.xml",      // userinfo trick
+        "https://foo.bar=evil/x.xml",      // authority continues with a URI-legal non-host character
         "https://evil/foo.bar/x.xml",      // authority in the path
     ];
     let max_deltas: u32 = ctx.tier.pick(3, 4);
     let k = uris.len() as u64;
     let sp = ctx.space("origins.has_matching_origins",
-        "base URI x every assignment of 9 URIs (equal, case variant, no path, different, prefix-of, extension-of, port, userinfo, in-path) to the snapshot and to 0..N deltas: has_matching_origins vs. `every referenced URI has the base's authority text, ASCII case ignored`; non-trivial = assignments that mix matching and non-matching URIs");
+        "base URI x every assignment of 9 URIs (equal, case variant, no path, different, prefix-of, extension-of, port, suffix after '=', in-path) to the snapshot and to 0..N deltas: has_matching_origins vs. `every referenced URI has the base's authority text, ASCII case ignored`; non-trivial = assignments that mix matching and non-matching URIs");
     let h = Hash::from([7u8; 32]);
     for base in bases {
         let base_uri = https(base);
@@ -927,15 +927,23 @@ fn run_hostile(kind: Kind, pre: &[u8], head: &[u8], block: &[u8], run_len: u64, 
     Hostile { pulled: counting.pulled, cap_hit: counting.inner.cap_hit, result, peak }
 }
 
-fn limit_at(kind: Kind, lay: &DocLayout, p: usize) -> u64 {
-    if kind == Kind::Notification || p <= lay.root_gt { HEADER_LIMIT } else { FILE_LIMIT }
+/// The configured limit in force for octets inserted at p. In a snapshot or
+/// delta the root start tag is under the header limit and everything after
+/// it under the element limit; a run that contains '>' and is inserted
+/// inside the root start tag can complete that tag itself, after which its
+/// remaining octets are element content, so the larger limit is allowed.
+fn limit_at(kind: Kind, lay: &DocLayout, p: usize, run: &[u8]) -> u64 {
+    if kind == Kind::Notification { return HEADER_LIMIT }
+    if p > lay.root_gt { return FILE_LIMIT }
+    let in_root_tag = lay.start[p] < p && lay.start[lay.root_gt] == lay.start[p];
+    if in_root_tag && run.contains(&b'>') { FILE_LIMIT } else { HEADER_LIMIT }
 }
 
 struct HostileStats { max_peak: AtomicU64, max_over: Mutex<(i64, String)> }
 
 /// One endless-run case: insertion at p of run r. Applies the oracles.
 fn hostile_case(ctx: &Ctx, sp: &Space, st: &HostileStats, kind: Kind, doc: &[u8], lay: &DocLayout, p: usize, r: &Run, block: &[u8], bufcap: usize) {
-    let limit = limit_at(kind, lay, p);
+    let limit = limit_at(kind, lay, p, r.unit);
     let cap = p as u64 + 4 * limit;
     let bound = lay.start[p] as u64 + limit + bufcap as u64;
     let h = run_hostile(kind, &doc[..p], r.head, block, u64::MAX, b"", bufcap, cap);
@@ -984,7 +992,7 @@ fn space_hostile_endless(ctx: &Ctx) {
         let mut heavy: Vec<(usize, usize, usize)> = Vec::new();
         let mut heavy_seen: BTreeMap<(&'static str, usize), ()> = BTreeMap::new();
         for p in 0..=doc.len() {
-            if limit_at(kind, &lay, p) == HEADER_LIMIT {
+            if p <= lay.root_gt || kind == Kind::Notification {
                 for ri in 0..RUNS.len() { light.push((p, ri, 8192)) }
                 if thorough { for ri in HEAVY_RUNS { light.push((p, ri, 64)); light.push((p, ri, 1 << 16)) } }
             } else if thorough {
@@ -998,7 +1006,7 @@ fn space_hostile_endless(ctx: &Ctx) {
         }
         if !thorough {
             // a second buffer size on a sub-grid so that the bound's buffer term is exercised
-            for p in (0..=doc.len()).step_by(7) { if limit_at(kind, &lay, p) == HEADER_LIMIT { for ri in [0usize, 1, 6] { light.push((p, ri, 64)) } } }
+            for p in (0..=doc.len()).step_by(7) { if p <= lay.root_gt || kind == Kind::Notification { for ri in [0usize, 1, 6] { light.push((p, ri, 64)) } } }
         }
         light.par_iter().for_each(|&(p, ri, bc)| hostile_case(ctx, &sp, &st, kind, &doc, &lay, p, &RUNS[ri], &blocks[ri], bc));
         heavy.par_iter().for_each(|&(p, ri, bc)| hostile_case(ctx, &sp, &st, kind, &doc, &lay, p, &RUNS[ri], &blocks[ri], bc));
@@ -1038,7 +1046,7 @@ fn space_hostile_bombs(ctx: &Ctx) {
         let doc = skeleton(b.kind);
         let lay = layout(&doc);
         let p = find(&doc, b.anchor) + b.anchor.len();
-        let limit = limit_at(b.kind, &lay, p);
+        let limit = limit_at(b.kind, &lay, p, b.unit);
         let lens: Vec<u64> = if limit == HEADER_LIMIT || ctx.tier.is_thorough() {
             vec![limit / 2, limit - 4096, limit + 3 * bufcap as u64, 2 * limit]
         } else { vec![limit - 4096, limit + 3 * bufcap as u64] };
@@ -1049,7 +1057,7 @@ fn space_hostile_bombs(ctx: &Ctx) {
         let doc = skeleton(b.kind);
         let lay = layout(&doc);
         let p = find(&doc, b.anchor) + b.anchor.len();
-        let limit = limit_at(b.kind, &lay, p);
+        let limit = limit_at(b.kind, &lay, p, b.unit);
         let bound = lay.start[p] as u64 + limit + bufcap as u64;
         let block = block_of(b.unit);
         let total = doc.len() as u64 + run_len;
